@@ -550,3 +550,101 @@ package consensus
 //@   requires cfg != nil
 //@   callpre fileFor: idx == ghost(wi_tail)
 //@   ensures [tail] err == nil ==> typeof(r) == typeid(ptr_walWriter) && as(ptr_walWriter, r) != nil && as(ptr_walWriter, r).tailIdx == ghost(wi_tail)
+
+// ---------------------------------------------------------------------------
+// C01 (local rules only - the agreement theorem over all nodes and schedules is not mechanised):
+// what a node prevotes and precommits, when it locks and unlocks, and that it enters the commit step
+// only with a set of precommits that holds more than two thirds for that very block
+// (ghosts: vf_*: the vote set last fetched with votesFor and for which round/type; ott_*: the vote
+// set last asked for its +2/3 decision and the answer)
+// ---------------------------------------------------------------------------
+//@ property C01
+//@ smt all (declare-ghost vf_res Int)
+//@ smt all (declare-ghost vf_round Int)
+//@ smt all (declare-ghost vf_type Int)
+//@ smt all (declare-ghost ott_of Int)
+//@ smt all (declare-ghost ott_ok Bool)
+//@ smt all (declare-ghost ott_id Int)
+//@ func (hvs *heightVoteSet) votesFor(round, voteType) (vs)
+//@   trusted
+//@   modifies *
+//@   opt abs-args
+//@   ensures vs != nil
+//@   opt ghost:vf_res vs
+//@   opt ghost:vf_round round
+//@   opt ghost:vf_type voteType
+//@ func (vs *voteSet) getOverTwoThirdsPartSetID() (psid, ok)
+//@   trusted
+//@   modifies vs.maxIndex
+//@   ensures !ok ==> psid == nil
+//@   opt ghost:ott_of vs
+//@   opt ghost:ott_ok ok
+//@   opt ghost:ott_id psid
+//@ func (cs *consensus) sendVote(vt, blockParts)
+//@   trusted
+//@   modifies *
+//@   opt abs-args
+//@ func (cs *consensus) enterCommit(precommits, partSetID, round)
+//@   trusted
+//@   modifies *
+
+//@ spec lockedZero(cs) = cs.lockedBlockParts.PartSet == nil && cs.lockedBlockParts.block == nil
+
+// prevote: a locked node prevotes its locked block and nothing else; an unlocked node prevotes the
+// proposal only once it is validated, otherwise nil
+//@ func (cs *consensus) enterPrevote()
+//@   arith int
+//@   nosafety
+//@   modifies *
+//@   opt no-callee-pre
+//@   opt inline-none
+//@   inline IsZero, HasBlockData, HasValidatedBlock
+//@   opt protect cs.lockedBlockParts.PartSet, cs.lockedBlockParts.block, cs.currentBlockParts.validatedBlock
+//@   requires cs != nil
+//@   callpre sendVote: vt == VoteTypePrevote
+//@   callpre sendVote: !lockedZero(cs) ==> blockParts == addr(cs.lockedBlockParts)
+//@   callpre sendVote: lockedZero(cs) && blockParts != nil ==> blockParts == addr(cs.currentBlockParts) && cs.currentBlockParts.validatedBlock != nil
+
+// precommit: a non-nil precommit is only ever for the locked block, locked in this very round, after
+// the prevotes of this round answered "+2/3 for a block"; a +2/3 for nil unlocks
+//@ func (cs *consensus) enterPrecommit()
+//@   arith int
+//@   nosafety
+//@   modifies *
+//@   opt no-callee-pre
+//@   opt inline-none
+//@   inline IsZero, HasBlockData, HasValidatedBlock, ID, Zerofy, IsComplete
+//@   opt protect cs.lockedRound, cs.round, cs.lockedBlockParts.PartSet, cs.lockedBlockParts.block
+//@   requires cs != nil
+//@   callpre getOverTwoThirdsPartSetID#0: vs == ghost(vf_res) && ghost(vf_type) == VoteTypePrevote && ghost(vf_round) == cs.round
+//@   callpre sendVote: vt == VoteTypePrecommit
+//@   callpre sendVote: blockParts != nil ==> ghost(ott_ok) && ghost(ott_id) != nil
+//@   callpre sendVote: blockParts != nil ==> blockParts == addr(cs.lockedBlockParts)
+//@   callpre sendVote: blockParts != nil ==> cs.lockedRound == cs.round
+//@   callpre sendVote: ghost(ott_ok) && ghost(ott_id) == nil ==> cs.lockedRound == -1 && lockedZero(cs) && blockParts == nil
+//@   callpre sendVote: !ghost(ott_ok) ==> blockParts == nil
+//@   loop 0: invariant true
+
+// commit: entered from the precommit wait only with this round's precommit set, which answered
+// "+2/3 for this block"
+//@ func (cs *consensus) enterPrecommitWait()
+//@   arith int
+//@   nosafety
+//@   modifies *
+//@   opt no-callee-pre
+//@   opt inline-none
+//@   opt protect cs.round
+//@   requires cs != nil
+//@   callpre enterCommit: ghost(ott_ok) && partSetID != nil && partSetID == ghost(ott_id) && precommits == ghost(ott_of) && round == cs.round
+//@   callpre getOverTwoThirdsPartSetID: vs == ghost(vf_res)
+//@   callpre getOverTwoThirdsPartSetID: ghost(vf_type) == VoteTypePrecommit
+//@   callpre getOverTwoThirdsPartSetID: ghost(vf_round) == cs.round
+//@   callpre votesFor: round == cs.round
+//@ func (cs *consensus) handlePrecommitMessage(msg, precommits)
+//@   arith int
+//@   nosafety
+//@   modifies *
+//@   opt no-callee-pre
+//@   opt inline-none
+//@   requires cs != nil && msg != nil
+//@   callpre enterCommit: partSetID != nil && partSetID == ghost(ott_id) && ghost(ott_of) == caller_precommits && precommits == caller_precommits && round == msg.Round
